@@ -1777,6 +1777,31 @@ class Interp:
                 valf = self._valf(val, lo)
                 v.get = lambda k, old=old: ite(z3.And(to_z3num(k) >= lo, to_z3num(k) < hi), valf(k), old(k))
                 return
+            if is_arr(idx) and self.arr_dtype(idx) == "bool" and concrete_int(self.arr_len(idx)) is not None and concrete_int(self.arr_len(idx)) <= 4 and concrete_int(v.n) == concrete_int(self.arr_len(idx)):
+                # small mask: decide each bit (no fork where the path condition already decides it), then the selected cells take
+                # the values in order -- numpy's semantics for `a[mask] = values`
+                n = concrete_int(v.n)
+                rdm = self.arr_reader(idx)
+                bits = [bool(self.branch(core.to_bool(rdm(i)))) for i in range(n)]
+                cells = [old(i) for i in range(n)]
+                if is_arr(val):
+                    nv = concrete_int(self.arr_len(val))
+                    rv = self.arr_reader(val)
+                    if nv == sum(bits):
+                        j = 0
+                        for i in range(n):
+                            if bits[i]:
+                                cells[i] = rv(j)
+                                j += 1
+                    elif nv == 1:
+                        cells = [rv(0) if b else c for b, c in zip(bits, cells)]
+                    else:
+                        raise Unsupported("masked store of %s values into %d selected cells" % (nv, sum(bits)))
+                else:
+                    sv = self._scalar(val)
+                    cells = [sv if b else c for b, c in zip(bits, cells)]
+                v.get = self._list_reader(cells)
+                return
             if is_arr(idx) and self.arr_dtype(idx) == "bool":
                 m = self.arr_reader(idx)
                 valf = self._valf(val, 0, masked=True)
